@@ -1,4 +1,5 @@
 import AvoVerif.Props.C03
+import AvoVerif.Props.C03Pipeline
 #print axioms Avo.Alloc.bindReg_ok
 #print axioms Avo.Alloc.verifyBound_false_of_unbound
 #print axioms Avo.Alloc.regs_idsDetermined
@@ -9,3 +10,6 @@ import AvoVerif.Props.C03
 #print axioms Avo.Alloc.lookup_returns_requested_view
 #print axioms Avo.Alloc.bp_last
 #print axioms Avo.Alloc.candidate_counts
+#print axioms Avo.Alloc.compile_bound_ok
+#print axioms Avo.Alloc.compile_targets_unrestricted
+#print axioms Avo.Alloc.targets_in_table
